@@ -43,9 +43,16 @@ Definition GI (c : cfg) (nb : N) (h : hstate) : Prop :=
   hs_ok h = true /\ sp_good (hs_acked h) /\ sp_good (hs_may h) /\
   match hs_mode h with
   | Up s => hs_may h = hs_acked h /\ LInv c nb (ss_wal s) (e_disk (ss_env s)) /\
-            e_fault (ss_env s) = None /\ sp_of (e_disk (ss_env s)) = hs_acked h
+            e_fault (ss_env s) = None /\ sp_of (e_disk (ss_env s)) = hs_acked h /\
+            Forall not_fail (e_acts (ss_env s))
   | Down d => DIs c nb d /\ no_pend d /\ (sp_of d = hs_acked h \/ sp_of d = hs_may h)
   end.
+
+Lemma ext_nofail P e0 e : ext P e0 e -> Forall not_fail (e_acts e0) -> Forall not_fail (e_acts e).
+Proof.
+  intros (_ & acts & Ea & Hnf & _) H0. rewrite Ea. apply Forall_app. split; [|exact H0].
+  rewrite Forall_forall in *. intros a Ha. apply Hnf. apply in_rev. exact Ha.
+Qed.
 
 Lemma GI_mono c nb nb' h : nb <= nb' -> GI c nb h -> GI c nb' h.
 Proof.
@@ -74,7 +81,7 @@ Proof.
   assert (Hmono : GI c (nb + 2) h) by (eapply GI_mono; [|exact HG]; lia).
   destruct HG as (Hok & Hga & Hgm & HM).
   unfold hstep_run. destruct (hs_mode h) as [s|d] eqn:Emode.
-  - destruct HM as (Hma & HL & Hf & Hsp).
+  - destruct HM as (Hma & HL & Hf & Hsp & Hnofail).
     destruct st as [o|o j cc| |j cc]; try exact Hmono.
     + (* a complete call *)
       destruct (Hcall o Hcov nb s (hs_acked h) Hc Hwf Hnb HL Hf Hsp Hga) as (r & s' & Hst & Hres & HL' & Hsp' & Hext).
@@ -84,7 +91,8 @@ Proof.
       { rewrite Hok, Hres. cbn [andb]. rewrite (LInv_abs _ _ _ _ HL'). fold (sp_of (e_disk (ss_env s'))).
         rewrite Hsp'. apply spst_eqb_refl. }
       cbn [hs_acked hs_may hs_mode]. split; [exact Hg'|]. split; [exact Hg'|].
-      split; [reflexivity|]. split; [exact HL'|]. split; [apply (ext_fault _ _ _ Hext)|exact Hsp'].
+      split; [reflexivity|]. split; [exact HL'|]. split; [apply (ext_fault _ _ _ Hext)|]. split; [exact Hsp'|].
+      apply (ext_nofail _ _ _ Hext Hnofail).
     + (* a crash inside a call *)
       destruct (Hcall o Hcov nb s (hs_acked h) Hc Hwf Hnb HL Hf Hsp Hga) as (r & s' & Hst & Hres & HL' & Hsp' & Hext).
       rewrite Hst. destruct (step_spec (hs_acked h) o) as [r' sp'] eqn:Espec. cbn [fst snd] in *.
@@ -127,7 +135,8 @@ Proof.
       split; [cbn [hs_ok]; rewrite Hok, Hn2, Hde; reflexivity|].
       cbn [hs_acked hs_may hs_mode]. split; [exact Hgn|]. split; [exact Hgn|].
       split; [reflexivity|]. split; [eapply LInv_mono; [|exact HL]; lia|].
-      cbn [ss_env]. split; [apply (ext_fault _ _ _ Hext)|]. rewrite Hs'. exact Hn1.
+      cbn [ss_env]. split; [apply (ext_fault _ _ _ Hext)|]. split; [rewrite Hs'; exact Hn1|].
+      apply (ext_nofail _ _ _ Hext). constructor.
     + (* a crash inside Open *)
       destruct (open_wal_ok c nb (env_of d) Hc eq_refl HD HN) as (w & e' & Ho & Hext & HL & Hde); [lia|].
       rewrite Ho. cbn [env_of e_disk] in Hext.
